@@ -3,7 +3,7 @@
 spec = {
   "tasks": [ {"id": int, "module": int, "deps": [node…], "prods": [node…], "after": [task id…],
               "after_style": "func"|"list"|"expr", "marks": ["skip","skipif_true","skipif_false","persist",
-              "try_first","try_last","markone","marktwo"], "beh": "ok"|"early"|"late"|"omit:k", "style": "default"|"annotated"|
+              "try_first","try_last","markone","marktwo"], "beh": "ok"|"early"|"late"|"omit:k"|"sysexit"|"sysexit_none"|"sysexit_msg"|"sysexit_late", "style": "default"|"annotated"|
               "kwargs"|"return", "gen": bool,
               # optional (C04 stream "dirlink"): "dirdep": [producer id…] — depends on the DirectoryNode product (`dirprod`) of those tasks
               # optional (C06/C17 streams): "mem_out": bool — an in-memory PythonNode product `mem<id>`; "mem_in": [producer id…] —
@@ -122,6 +122,10 @@ def body(t, src, deps, prods, beh, ret=None, dirs=()):
     if beh == "sysexit":
         log(f"X {t}")
         raise SystemExit(3)
+    if beh in ("sysexit_none", "sysexit_msg"):   # script-style bodies: sys.exit() / sys.exit("message") before anything is written
+        import sys as _sys
+        log(f"X {t}")
+        _sys.exit() if beh == "sysexit_none" else _sys.exit(f"task {t} gives up")
     skip = int(beh.split(":")[1]) if beh.startswith("omit:") else None
     for d in dirs:      # directory-pattern products (optional spec field "dirprod"): two files per directory
         Path(d).mkdir(parents=True, exist_ok=True)
@@ -141,6 +145,10 @@ def body(t, src, deps, prods, beh, ret=None, dirs=()):
     if beh == "late":
         log(f"X {t}")
         raise RuntimeError(f"task {t} fails late")
+    if beh == "sysexit_late":                      # sys.exit(2) after all products were written
+        import sys as _sys
+        log(f"X {t}")
+        _sys.exit(2)
     if beh.startswith("deldep:"):
         # the body consumes (deletes) one of its own dependency files after writing its products
         log(f"D {t}")
@@ -579,7 +587,8 @@ def model_lines(spec):
         prio = 1 if "try_first" in marks else (-1 if "try_last" in marks else 0)
         # "deldep" (body deletes a private dependency after writing its products): with the F29 repair the task fails in
         # teardown = writes everything, then raises; the harness removes the file from the model's world after the build
-        beh = {"sysexit": "early", "deldep": "late"}.get(t.get("beh", "ok"), t.get("beh", "ok"))
+        beh = {"sysexit": "early", "sysexit_none": "early", "sysexit_msg": "early", "sysexit_late": "late",
+               "deldep": "late"}.get(t.get("beh", "ok"), t.get("beh", "ok"))
         deps = list(t["deps"])
         if t.get("setup_fault"):
             # a node whose state()/hash raises, or a marker whose evaluation raises, in setup = a private dependency
